@@ -43,23 +43,26 @@ var ExcludedDirs = map[string]string{
 const MinProdPackages = 16
 
 type Prog struct {
-	Dir        string
-	Fset       *token.FileSet
-	Pkgs       []*packages.Package
-	ByRel      map[string]*packages.Package // "" (root), "impl", "channels", ...
-	SSA        *ssa.Program
-	SSAByRel   map[string]*ssa.Package
-	prodT      map[*types.Package]bool
-	AllFuncs   map[*ssa.Function]bool
-	Prod       []*ssa.Function // production functions with bodies, sorted by name
-	LoadS      float64
-	SSAS       float64
-	cg         *CallGraph
-	facts      map[*ssa.Function]map[*ssa.BasicBlock][]Fact
-	Overlay    map[string][]byte
-	GoBin      string
-	constNames map[string]string
-	constPkgs  map[*types.Package]bool
+	// ForceInline: existing helpers a rule asks Paths to walk through (set by the
+	// rule around its call to Paths).
+	ForceInline map[*ssa.Function]bool
+	Dir         string
+	Fset        *token.FileSet
+	Pkgs        []*packages.Package
+	ByRel       map[string]*packages.Package // "" (root), "impl", "channels", ...
+	SSA         *ssa.Program
+	SSAByRel    map[string]*ssa.Package
+	prodT       map[*types.Package]bool
+	AllFuncs    map[*ssa.Function]bool
+	Prod        []*ssa.Function // production functions with bodies, sorted by name
+	LoadS       float64
+	SSAS        float64
+	cg          *CallGraph
+	facts       map[*ssa.Function]map[*ssa.BasicBlock][]Fact
+	Overlay     map[string][]byte
+	GoBin       string
+	constNames  map[string]string
+	constPkgs   map[*types.Package]bool
 }
 
 // goEnv picks a go toolchain consistent with the one this binary was built
